@@ -376,6 +376,13 @@ def _integrity_repair(ctx):
                     maps.add(side.value.id)
     if not maps:
         return
+    aliases = {}
+    for gn in graph.nodes:
+        if gn.kind == 'stmt' and isinstance(gn.ast, ast.Assign) and \
+                len(gn.ast.targets) == 1 and \
+                isinstance(gn.ast.targets[0], ast.Name):
+            aliases.setdefault(gn.ast.targets[0].id, []).append(
+                N.txt(gn.ast.value))
     judged = 0
     for node in graph.nodes:
         for call in C.node_calls(node):
@@ -383,6 +390,15 @@ def _integrity_repair(ctx):
                 continue
             arg = N.txt(call.args[0])
             named = [m for m in maps if '%s[' % m in arg]
+            if not named:
+                # ... or through a local holding what the map names
+                # (first_seen = app2server[app] / app2server.get(app))
+                for nm in N.mentions(call.args[0]):
+                    for m in maps:
+                        if any(b.startswith(('%s[' % m, '%s.get(' % m))
+                               for b in aliases.get(nm, ())) and \
+                                len(aliases.get(nm, ())) == 1:
+                            named.append(m)
             if not named:
                 continue
             # the record deleted is the one the map names: before the walk
